@@ -17,16 +17,15 @@ def nthNumba (xg : List Num) (index : Int) : Option Res :=
     some (ofNum xg[i]!)
   else none
 
-/-- `mode_apply_numba`: `ng[i] = #{j | xg[j] == xg[i]}` (NaN equals nothing), `xg[argmax(ng)]`. -/
+/-- `ng[i]`: how many elements of the group equal element `x` under Numba (`NaN == x` is false). -/
+def numbaEqCount (xg : List Num) (x : Num) : Nat :=
+  match x with
+  | none => 0
+  | some v => (xg.filter (fun y => y == some v)).length
+
+/-- `mode_apply_numba`: `ng[i] = #{j | xg[j] == xg[i]}`, `xg[argmax(ng)]`. -/
 def modeNumba (xg : List Num) : Option Res :=
-  if xg.length > 0 then
-    let ng := xg.map (fun x => match x with
-      | none => 0
-      | some v => (xg.filter (fun y => y == some v)).length)
-    -- np.argmax: first position of the maximum
-    let best := (ng.zipIdx.foldl (fun (acc : Nat × Nat) p => if p.1 > acc.1 then (p.1, p.2) else acc) (ng[0]!, 0)).2
-    some (ofNum xg[best]!)
-  else none
+  if xg.length > 0 then some (ofNum xg[firstArgmax (xg.map (numbaEqCount xg))]!) else none
 
 /-- `len(np.unique(xg))` in Numba: sort, count positions that differ from their predecessor;
     NaN / NaT differ from everything. -/
